@@ -328,6 +328,10 @@ func (vc *FnVC) fresh(prefix, sort string) string {
 	vc.n++
 	name := fmt.Sprintf("%s_%d", mangle(prefix), vc.n)
 	vc.emit(fmt.Sprintf("(declare-const %s %s)", name, sort))
+	if sort == "Iface" {
+		// the nil interface value is canonical
+		vc.emit(fmt.Sprintf("(assert (=> (= (itag %s) 0) (= %s niliface)))", name, name))
+	}
 	return name
 }
 
@@ -455,6 +459,9 @@ func (vc *FnVC) heapWF(name, sort, a string) {
 	case "Slice":
 		vc.emit(fmt.Sprintf("(assert (and (>= (slen %s) 0) (>= (soff %s) 0) (>= (scap %s) (slen %s))))", name, name, name, name))
 		return
+	case "Iface":
+		vc.emit(fmt.Sprintf("(assert (=> (= (itag %s) 0) (= %s niliface)))", name, name))
+		return
 	}
 	if !strings.HasPrefix(sort, "(Array Ref ") {
 		return
@@ -492,6 +499,8 @@ func (vc *FnVC) heapWF(name, sort, a string) {
 		if a != "" {
 			facts = append(facts, fmt.Sprintf("(or (= %s nil) (select %s %s))", sel, a, sel))
 		}
+	case "Iface":
+		facts = append(facts, fmt.Sprintf("(=> (= (itag %s) 0) (= %s niliface))", sel, sel))
 	}
 	if len(facts) == 0 {
 		return
@@ -789,6 +798,9 @@ func (vc *FnVC) wf(guard, term string, t types.Type, st *state, depth int) {
 			vc.assume(guard, fmt.Sprintf("(or (= (sbase %s) nil) (select %s (sbase %s)))", term, vc.hget(st, "A"), term))
 		}
 		vc.assume(guard, fmt.Sprintf("(and (>= (slen %s) 0) (>= (soff %s) 0) (>= (scap %s) (slen %s)) (=> (= (sbase %s) nil) (= (scap %s) 0)))", term, term, term, term, term, term))
+	case *types.Interface:
+		// the nil interface value is canonical
+		vc.assume(guard, fmt.Sprintf("(=> (= (itag %s) 0) (= %s niliface))", term, term))
 	case *types.Basic:
 		if u.Info()&types.IsUnsigned != 0 {
 			vc.assume(guard, "(>= "+term+" 0)")
